@@ -143,10 +143,12 @@ class GenesisCheck:
             r, n = job
             try:
                 vlib.build_harness(r["binary"])
-                out = os.path.join(work, f"rectrace-{r['binary']}-{abs(hash(r.get('cfg','')))%9999}.ndjson")
+                out = os.path.join(work, f"rectrace-{r['binary']}-{abs(hash(r.get('cfg','') + r.get('in','')))%99999}.ndjson")
                 env = dict(os.environ, VERIF_RECORD_DIR=recdir)
                 cmd = [vlib.harness_bin(r["binary"]), r.get("mode", "random"), "-out", out, "-seed", str(seed * 31 + 7),
-                       "-n", str(n), "-len", str(r["len"]), "-cfg", r.get("cfg", "")]
+                       "-n", str(n), "-len", str(r.get("len", 30)), "-cfg", r.get("cfg", "")]
+                if r.get("in"):
+                    cmd += ["-in", os.path.join(ROOT, r["in"])]
                 p = subprocess.run(cmd, env=env, capture_output=True, text=True, timeout=1800)
                 if p.returncode != 0:
                     failed.append((r["binary"], p.stderr[-600:]))
